@@ -5,13 +5,16 @@
      - for single-member numeric documents: an independent statement of what the digest of the
        integer denoted by the text must be (EIP-712 hashStruct of one int<M>/uint<M> member), which is
        the property oracle "never hashed as a different value", and the model's numeric coercion.
-   Result codes: 0 agree; 1..9 model differs from the implementation; >= 10 the implementation breaks
-   the property on this input. *)
+   Result codes: 0 agree; 1..9 model differs from the implementation (8: the encoding/json lexer let
+   through a number token outside the RFC 8259 number grammar — the hypothesis [json_number] of the
+   theorems about JSON numbers, checked with RefJsonNumber.json_number_b on every token); >= 10 the
+   implementation breaks the property on this input. *)
 From Coq Require Import String.
 From Coq Require Import List NArith ZArith Bool Arith.
 From Coq Require Import Init.Byte.
 From FFS Require Import Base.Res Base.Bytes Base.Lit Base.Keccak Abi.Spec.
 From FFS Require Import Eip712.Util Eip712.Input Eip712.Numeric Eip712.Coerce Eip712.Model.
+From FFS Require Import Eip712.RefJsonNumber.
 Import ListNotations.
 
 (* ---------- trees as written by the harness: leaves in the byte-DSL ---------- *)
@@ -127,6 +130,9 @@ Definition e2e_class (c1 c2 : nat) : nat := if (c1 =? 0)%nat then c2 else c1.
 Definition check_doc (doc : json) (o : bytes -> option Z) (ucls : nat) (proj : N * N * N)
            (hcls : nat) (hdig : bytes) (pcls scls : nat) (sdig : bytes) : N :=
   if (ucls =? 2)%nat || (hcls =? 2)%nat || (pcls =? 2)%nat || (scls =? 2)%nat then 12 else
+  (* every number token the encoding/json lexer handed over is an RFC 8259 number: the hypothesis
+     [json_number] of the theorems about JSON numbers (RefJsonNumber.json_number_b_sound) *)
+  if negb (json_numbers_ok doc) then 8 else
   let dv := decode_typed_data doc in
   let proj_ok := match dv with
                  | Ok td => if (ucls =? 0)%nat then cks_eqb (cks (ser_td td)) proj else true
@@ -152,6 +158,9 @@ Definition a_key : bytes := bs "A".
 Definition check_num (sgn : bool) (bits : N) (isnum : bool) (text : bytes) (denotes : option Z)
            (canonical : bool) (o : bytes -> option Z) (cls : nat) (dig : bytes) : N :=
   if (cls =? 2)%nat then 12 else
+  (* a text offered as a JSON number that is not an RFC 8259 number ("00e-1", "+5"): the document is
+     not JSON, the lexer must refuse it (class error); code 8 when encoding/json accepted such a token *)
+  if isnum && negb (json_number_b text) then (if (cls =? 1)%nat then 0 else 8) else
   let v := if isnum then GNumber text else GString text in
   let tn := type_name sgn bits in
   let types : typeset := [(a_key, Some [Some (mkMember x_key tn)])] in
